@@ -811,8 +811,38 @@ func wrongTyped(r *rand.Rand) string {
 	return []string{"null", "1", "1.5", "true", `"str"`, "[]", "{}", `[1,"a"]`, `{"a":1}`, "-0", `""`}[r.Intn(11)]
 }
 
+// pinnedQueries are reproducers of the defects found so far (and near
+// misses of them); they are cases 0..len-1 of every run.
+var pinnedQueries = []string{
+	`{ ... { kind } }`,
+	`{ items { ... @include(if: true) { id } } }`,
+	`{f(a:[[?]])}`,
+	"{ echo(s: [1, [\"x\n]]) }",
+	`query($a: Int = [[1.]]) { kind }`,
+	`{ item(id: 1) { a: parent { id } a: id } }`,
+	`{ item(id: 1) { a: id a: parent { id } } }`,
+	`{ things { ... on Item { a: related { __typename } } ... on Item { a: __typename } } }`,
+	`{ users { id secret } s2root s1echo(s: 1) }`,
+	`{ __typename }`,
+	`{ everyone { ... on Everyone { ... on User { id } } } }`,
+}
+
+func pinnedCase(i int) *gcase {
+	q := pinnedQueries[i]
+	c := &gcase{Index: i, Schema: "zoo", Query: q, VarsJSON: "{}", Vars: map[string]interface{}{}, HTTPMethod: "POST", Feats: []string{fmt.Sprintf("pinned:%d", i)}}
+	if strings.Contains(q, "users") || strings.Contains(q, "everyone") {
+		c.Schema = "gw"
+	}
+	c.HTTPBody = `{"query":` + jsonString(q) + `,"variables":{}}`
+	c.WS = []string{`{"id":"p1","type":"subscribe","message":` + c.HTTPBody + `}`, `{"id":"e","type":"echo"}`, `{"id":"p2","type":"mutate","message":` + c.HTTPBody + `}`}
+	return c
+}
+
 // genCase builds case i for the given schema descriptions.
 func genCase(r *rand.Rand, i int, zoo, gw *schemaDesc) *gcase {
+	if i < len(pinnedQueries) {
+		return pinnedCase(i)
+	}
 	c := &gcase{Index: i, Schema: "zoo"}
 	d := zoo
 	if r.Intn(100) < 35 {
